@@ -21,8 +21,15 @@ func InitGenesis(ctx sdk.Context, k keeper.Keeper, genState types.GenesisState) 
 		}
 	}
 
-	// Set genesis MTP count
-	k.SetMTPCount(ctx, (uint64)(len(genState.MtpList)))
+	// Set genesis MTP count: it is the last id handed out (SetMTP gives a new position count+1), so it must not fall below the
+	// highest imported id - ids of closed positions leave gaps, and an id handed out twice to one owner overwrites the position
+	mtpCount := (uint64)(len(genState.MtpList))
+	for _, elem := range genState.MtpList {
+		if elem.Id > mtpCount {
+			mtpCount = elem.Id
+		}
+	}
+	k.SetMTPCount(ctx, mtpCount)
 	// Set genesis open MTP count
 	k.SetOpenMTPCount(ctx, (uint64)(len(genState.MtpList)))
 
